@@ -878,12 +878,13 @@ package ecs
 //@ func capacity(size, increment) (r)
 //@   flag trusted
 //@   requires 0 <= size && size < 1073741823 && 1 <= increment && increment < 1073741823
-//@   ensures r >= size && r < size + increment && r % increment == 0
+//@   ensures r >= size && r < size + increment
 
 //@ func bitSet.ExtendTo(b, length)
 //@   props C02 C17
-//@   requires 0 <= length && length < 2147483000
-//@   ensures bitSetCovers(b, length) && len(b.data) >= old(len(b.data))
+//@   requires 0 <= length && length < 2147483000 && len(b.data) < 1073741823
+//@   ensures bitSetCovers(b, length) && len(b.data) >= old(len(b.data)) && len(b.data) < 1073741823
+//@   ensures[mono] 64 * len(b.data) >= 64 * old(len(b.data))
 //@   modifies b.data
 
 //@ func bitSet.Reset(b)
@@ -910,7 +911,7 @@ package ecs
 
 //@ pred worldIdxInv(w *World) bool =
 //@   poolInv(&w.entityPool) && issuedInv(&w.entityPool)
-//@   && len(w.entities) == len(w.entityPool.entities) && bitSetCovers(&w.targetEntities, len(w.entities))
+//@   && len(w.entities) == len(w.entityPool.entities) && bitSetCovers(&w.targetEntities, len(w.entities)) && len(w.targetEntities.data) < 1073741823
 //@   && w.config.CapacityIncrement >= 1 && w.config.CapacityIncrement < 1073741823
 //@   && int(w.entityPool.capacityIncrement) == w.config.CapacityIncrement
 
@@ -931,20 +932,23 @@ package ecs
 //@   ensures w.entities[int(e.id)].arch == arch && w.entities[int(e.id)].index == old(arch.len)
 //@   modifies *(&w.entityPool), w.entityPool.entities[ALL], w.entities, w.entities[ALL], *(&w.targetEntities), w.targetEntities.data[ALL], all(archetype.len), all(archetype.cap), all(archetypeAccess.entityPointer), all(layout.pointer)
 
-// (draft, not yet discharged within the time limits: not counted for any property)
+// createEntities: the batch counterpart of createEntity - count handles from the pool (recycled ones first), the entity index
+// grown once to exactly the size the pool will have, every new handle indexed; the number of alive entities grows by count.
 //@ func World.createEntities(w, arch, count)
-//@   requires worldIdxInv(w) && arch != nil && len(w.entities) < 536870911 && count >= 1 && count < 536870911
+//@   props C02
+//@   requires worldIdxInv(w) && arch != nil && len(w.entities) < 500000000 && count >= 1 && count < 500000000 && w.config.CapacityIncrement < 1000000000
 //@   flag noframe
-//@   ensures forall t *archetype :: {t.archetypeAccess.RelationTarget.id} t.archetypeAccess.RelationTarget == old(t.archetypeAccess.RelationTarget)
-//@   modifies *(&w.entityPool), w.entityPool.entities[ALL], w.entities, w.entities[ALL], *(&w.targetEntities), w.targetEntities.data[ALL], all(archetype.len), all(archetype.cap), all(archetypeAccess.entityPointer), all(layout.pointer)
 //@   ensures worldIdxInv(w)
 //@   ensures len(w.entityPool.entities) - 1 - int(w.entityPool.available) == old(len(w.entityPool.entities) - 1 - int(w.entityPool.available)) + int(count)
+//@   ensures forall t *archetype :: {t.archetypeAccess.RelationTarget.id} t.archetypeAccess.RelationTarget == old(t.archetypeAccess.RelationTarget)
+//@   modifies *(&w.entityPool), w.entityPool.entities[ALL], w.entities, w.entities[ALL], *(&w.targetEntities), w.targetEntities.data[ALL], all(archetype.len), all(archetype.cap), all(archetypeAccess.entityPointer), all(layout.pointer)
 //@   loop #1
-//@   inv worldIdxInv(w) && i <= count
-//@   inv len(w.entityPool.entities) - 1 - int(w.entityPool.available) == old(len(w.entityPool.entities) - 1 - int(w.entityPool.available)) + int(i)
-//@   inv len(w.entities) >= old(len(w.entities)) + int(count) - old(int(w.entityPool.available)) && len(w.entities) >= old(len(w.entities))
-//@   inv int(w.entityPool.available) + int(i) >= old(int(w.entityPool.available)) || w.entityPool.available == 0
-//@   inv len(w.entityPool.entities) <= old(len(w.entities)) + int(i)
+//@   inv poolInv(&w.entityPool) && issuedInv(&w.entityPool) && i <= count && w.config.CapacityIncrement >= 1 && w.config.CapacityIncrement < 1000000000 && int(w.entityPool.capacityIncrement) == w.config.CapacityIncrement
+//@   inv int(w.entityPool.available) == ite(int(old(w.entityPool.available)) >= int(i), int(old(w.entityPool.available)) - int(i), 0)
+//@   inv len(w.entityPool.entities) == old(len(w.entityPool.entities)) + ite(int(i) > int(old(w.entityPool.available)), int(i) - int(old(w.entityPool.available)), 0)
+//@   inv len(w.entities) == old(len(w.entities)) + ite(int(count) > int(old(w.entityPool.available)), int(count) - int(old(w.entityPool.available)), 0)
+//@   inv bitSetCovers(&w.targetEntities, len(w.entities)) && len(w.targetEntities.data) < 1073741823
+//@   inv forall t *archetype :: {t.archetypeAccess.RelationTarget.id} t.archetypeAccess.RelationTarget == old(t.archetypeAccess.RelationTarget)
 
 // ---------------------------------------------------------------------------------------------
 // C03 — query cursors
@@ -1981,11 +1985,10 @@ package ecs
 // ---------------------------------------------------------------------------------------------
 // newEntitiesNoNotify: refused before any change on a locked world, for a non-positive count, for a dead relation target and
 // for a relation ID that is not the relation component of the resulting table; otherwise the entities are created in a
-// table whose relation target (if it has a relation component) is exactly the given one. The index sizing loop
-// createEntities is an ASSUMED contract (its draft proof exceeds the time limits).
+// table whose relation target (if it has a relation component) is exactly the given one. createEntities is proved (C02).
 //@ func World.newEntitiesNoNotify(w, count, targetID, hasTarget, target, comps) (arch, start)
 //@   props C10 C05 C09
-//@   requires lockInv(&w.locks) && regInv(&w.registry) && worldIdxInv(w) && validID(targetID.id) && count < 536870911 && len(w.entities) < 536870911
+//@   requires lockInv(&w.locks) && regInv(&w.registry) && worldIdxInv(w) && validID(targetID.id) && count < 500000000 && len(w.entities) < 500000000 && w.config.CapacityIncrement < 1000000000
 //@   requires target.id != 0 ==> int(target.id) < len(w.entityPool.entities)
 //@   requires validID(pgArch(&w.archetypes, 0).archetypeAccess.RelationComponent.id) && pgArch(&w.archetypes, 0).node != nil && !pgArch(&w.archetypes, 0).archetypeAccess.HasRelationComponent
 //@   flag nosafe may_panic panic_clean noframe
